@@ -143,11 +143,20 @@ def gen_cases(tier, seed, n_quick, n_thorough, opts_per_input=3, profile=None):
     return out, stats
 
 
+def impl_parse_dump(text):
+    try:
+        return ('ok', dump.module(parser.Module.parseString(text)))
+    except Exception as e:
+        return (common.classify_exc(e), str(e)[:200])
+
+
 def _case_job(job):
     name, text, seed = job
     it = impl_items(text)
     if it[0] != 'ok':
         return name, text, it, []
+    pd = impl_parse_dump(text)
+    it = it + (pd[1] if pd[0] == 'ok' else None, )
     r = random.Random('opt/%s/%s' % (seed, name))
     paths = ns_paths(it[1])
     tops = [['']] + [[''] + list(p) for p in paths] + [['', 'absent_ns']]
@@ -194,7 +203,7 @@ def _cpp_names_impl(items):
     return out
 
 
-def correspond(rep, tier, seed, q, view, n_quick, n_thorough, profile=None):
+def correspond(rep, tier, seed, q, view, n_quick, n_thorough, profile=None, e2e=False):
     """byte-level tie first; where bytes differ the property's view of both texts decides.
     Returns list of disagreement dicts."""
     import extract_pybind as E
@@ -224,6 +233,26 @@ def correspond(rep, tier, seed, q, view, n_quick, n_thorough, profile=None):
                         dis.append({'case': name, 'input': text, 'cfg': cfg, 'kind': 'impl-fails:' + st,
                                     'impl': out, 'model': (mtext or ans)[:1500]})
                     continue
+                if mtext == out and e2e and len(it) > 2 and it[2] is not None:
+                    # end to end: the model's own instantiation of the implementation's parse tree, then the
+                    # generator model (an instantiation defect shows in the generated code)
+                    from props import instcommon as ic
+                    iq = correspond.__dict__.setdefault('iq', ic.detect_quirks())
+                    e = model.ask('pybind_e2e', [iq, q, [top, ign, boost], TPL, 'mod', [], it[2]])
+                    if e.startswith('ok ') and not any(mk in e for mk in ic.MARKERS):
+                        etext = sexp.loads(e[3:])
+                        if etext != out:
+                            rep.bump('e2e_differs')
+                            vi = view(E.records(out))
+                            ve = view(E.records(etext))
+                            if vi != ve:
+                                dis.append({'case': name, 'input': text, 'cfg': cfg, 'kind': 'counterexample',
+                                            'stage': 'instantiation (end-to-end model differs, generator stage agrees)',
+                                            'impl_view': repr([x for x in vi if x not in ve])[:3000],
+                                            'model_view': repr([x for x in ve if x not in vi])[:3000]})
+                                continue
+                        else:
+                            rep.bump('e2e_equal')
                 if mtext == out:
                     rep.bump('bytes_equal')
                     if stext != mtext:
